@@ -363,6 +363,70 @@ impl Family for Tree {
     }
 }
 
+/// The history tree again with the statement ids renamed: the shim hands out ids of its own
+/// choosing, so every history must behave the same whether the two statements are called 1 and 2
+/// or 300 and 100, 2^32-1 and 0, 65536 and 65537 (ids far apart, close together, in descending
+/// order, beyond 8/12/16/24 bits). Index = (id map, history).
+pub struct IdTree {
+    pub label: String,
+    pub alpha: Vec<Action>,
+    pub depth: usize,
+    pub maps: Vec<[u32; 3]>,
+}
+
+pub fn id_maps() -> Vec<[u32; 3]> {
+    vec![[300, 100, 200], [100, 300, 7], [70_000, 3, 4], [u32::MAX, 0, 1], [256, 0, 512], [4096, 4095, 1], [65_536, 65_537, 1 << 24], [0x0100_0001, 1, 0x0001_0001]]
+}
+
+fn rename(a: &Action, m: &[u32; 3]) -> Action {
+    let f = |id: u32| if (1..=3).contains(&id) { m[(id - 1) as usize] } else { id };
+    match *a {
+        Action::Prepare { id, n, ok } => Action::Prepare { id: f(id), n, ok },
+        Action::Exec { id, bind, null_first, shim_ignores } => Action::Exec { id: f(id), bind, null_first, shim_ignores },
+        Action::Long { id, param, chunk } => Action::Long { id: f(id), param, chunk },
+        Action::Close { id } => Action::Close { id: f(id) },
+    }
+}
+
+impl IdTree {
+    fn hist(&self, idx: u64) -> Vec<Action> {
+        let per = (self.alpha.len() as u64).pow(self.depth as u32);
+        let m = &self.maps[(idx / per) as usize];
+        let d = digits(idx % per, &vec![self.alpha.len() as u64; self.depth]);
+        d.iter().map(|i| rename(&self.alpha[*i as usize], m)).collect()
+    }
+}
+
+impl Family for IdTree {
+    fn ambient(&self, idx: u64) -> u64 {
+        crate::engine::rot(idx)
+    }
+    fn name(&self) -> String {
+        format!("{}-tree-depth-{}-with-renamed-ids", self.label, self.depth)
+    }
+    fn len(&self) -> u64 {
+        (self.alpha.len() as u64).pow(self.depth as u32) * self.maps.len() as u64
+    }
+    fn run(&self, idx: u64, st: &mut Stats) -> Result<(), Violation> {
+        let h = self.hist(idx);
+        let mut reg = Registry::default();
+        for (step, a) in h.iter().enumerate() {
+            let p = encode(&reg, a, step);
+            let r = reg.route(&p);
+            if (r == Routed::Fatal || r == Routed::Refused) && step + 1 < h.len() {
+                st.skipped += 1;
+                return Ok(());
+            }
+        }
+        st.nontrivial += 1;
+        st.bump("histories_with_renamed_ids");
+        run_history(&h, st).map(|_| ())
+    }
+    fn describe(&self, idx: u64) -> J {
+        hist_json(&self.hist(idx))
+    }
+}
+
 fn classify(h: &[Action], st: &mut Stats) {
     let mut seen_exec_bind: HashMap<u32, bool> = HashMap::new();
     let mut pending_long: HashMap<u32, bool> = HashMap::new();
